@@ -1305,6 +1305,19 @@ def run(chk):
             exits = ", ".join("line %s" % b[2] if isinstance(b, tuple) else b for b in bad)
             chk.violation(r_lc, key, "%s modifies %s (`%s`) and can return (%s) without emptying %s, which %s::%s() only rebuilds when it is empty: the accessor keeps handing out records built from the old %s" % (f["q"], src, show(node)[:60], exits, M, q.split("::")[-1], "iuad" if M == "output_data" else "accessor", src), f["file"], node["l"])
 
+    # ---- C05.fpindex: cell property arrays are read at an index of their own kind
+    r_fi = chk.rule("C05.fpindex", "outside FieldProps, an array taken from FieldPropsManager::get_int/get_double/get_copy/try_get (one entry per ACTIVE cell) is subscripted with an active index and one from get_global_int/get_global_double with a global index - where the index comes from is followed through locals: cell.active_index(), activeIndex(...), getActiveIndex(...) are active, .global_index / getGlobalIndex(...) / a *global_index* member are global (the restart constructor of Connection looks the saturation table of a defaulted connection up this way)", floor=8)
+    from verif import fpindex
+    for f in lib.fns:
+        if not f.get("body") or not f["file"].startswith(core.REPO + "/opm/") or "/EclipseState/Grid/FieldProps" in f["file"]:
+            continue
+        inst, viol = fpindex.analyse(f)
+        for line, arr, ka, idx, ki in inst:
+            if ki:
+                chk.instance(r_fi, "%s@%s[%s]" % (f["q"], arr[:30], idx[:30]), sample=dict(function=f["q"], line=line, array=arr, array_kind=ka, index=idx, index_kind=ki))
+        for line, arr, ka, idx, ki in viol:
+            chk.violation(r_fi, "%s@%s[%s]" % (f["q"], arr[:30], idx[:30]), "%s: `%s` holds one entry per %s cell but is read at `%s`, a%s index: with inactive cells in the grid this is the entry of another cell (or beyond the end of the array)" % (f["q"], arr, ka, idx, "n active" if ki == "active" else " global"), f["file"], line)
+
     chk.assumptions += [
         "slots are joined on the array enum and enumerator (XGRP: on the integer of the key->index tables)",
         "mnemonic->measure and slot-name->mnemonic grammars frozen in rules/C05.py (documented Eclipse naming)",
